@@ -126,6 +126,11 @@ def build(fluxcase, rendered, damage=None):
             marks = fluxcase.get('marks') or {}
             reid = fluxcase.get('reid') or {}
             secs = [(r, surf[(t * spt + r) * 256:(t * spt + r + 1) * 256], marks.get('%d:%d:%d' % (s, t, r), 0xFB), reid.get('%d:%d:%d' % (s, t, r))) for r in order]
+            big = fluxcase.get('bigsec') or {}
+            if big:
+                # a sector recorded with another size code (128 << n bytes of data, ID and CRCs consistent with it)
+                secs = [(r, (pl + bytes([0xB5]) * 1024)[:128 << big['%d:%d:%d' % (s, t, r)]], mk, [t, s, r, big['%d:%d:%d' % (s, t, r)]])
+                        if '%d:%d:%d' % (s, t, r) in big else (r, pl, mk, ov) for r, pl, mk, ov in secs]
             cells, regions = flux.encode_track(enc, t, s, secs, p)
             info['regions'][(s, t)] = regions
             info['order'][(s, t)] = order
